@@ -24,6 +24,7 @@ theorem badRef_ne_ok : badRefMsg ≠ okMsg := by decide
 theorem stale_ne_ok : staleMsg ≠ okMsg := by decide
 theorem missing_ne_ok : missingMsg ≠ okMsg := by decide
 theorem atomicFailed_ne_ok : atomicFailedMsg ≠ okMsg := by decide
+theorem failedLock_ne_ok : Gen.ReceivePack.failedLockMsg ≠ okMsg := by decide
 
 /-- update hooks never "decline" with the literal message `ok` -/
 def HookSane (env : Env) : Prop := ∀ c, env.hook c ≠ some okMsg
@@ -64,11 +65,14 @@ theorem guarded_spec {fl : Flags} {env : Env} {s s' : Srv} {c : Cmd} {m failMsg 
   · -- the container raised
     split at h
     · cases h
-      exact ⟨rfl, Or.inl ⟨rfl, fun e => absurd e hf⟩⟩
+      exact ⟨rfl, Or.inl ⟨rfl, fun e => absurd e failedLock_ne_ok⟩⟩
     · split at h
       · cases h
-        exact ⟨rfl, Or.inl ⟨rfl, fun e => absurd e badRef_ne_ok⟩⟩
-      · cases h
+        exact ⟨rfl, Or.inl ⟨rfl, fun e => absurd e hf⟩⟩
+      · split at h
+        · cases h
+          exact ⟨rfl, Or.inl ⟨rfl, fun e => absurd e badRef_ne_ok⟩⟩
+        · cases h
   · rename_i hfault
     simp only [Except.ok.injEq, Prod.mk.injEq] at h
     obtain ⟨rfl, rfl⟩ := h
@@ -996,26 +1000,32 @@ two handlers. -/
 def NoEscape (env : Env) (caps : List Bytes) (cmds : List Cmd) : Prop :=
   deleteRefused caps = false ∧
   ∀ c ∈ cmds, ∀ mro, env.fault c.name = some mro →
+    catches Gen.ReceivePack.lockCatches mro = true ∨
     catches Gen.ReceivePack.allExceptions mro = true ∨ catches Gen.ReceivePack.badRefCatches mro = true
 
 theorem guarded_no_error {env : Env} {s : Srv} {n : Name} {failMsg : Bytes} {call : Unit → Refs × Bool}
     {fl : Flags}
     (hf : ∀ mro, env.fault n = some mro →
+      catches Gen.ReceivePack.lockCatches mro = true ∨
       catches Gen.ReceivePack.allExceptions mro = true ∨ catches Gen.ReceivePack.badRefCatches mro = true) :
     ∃ r, guarded env s n failMsg call fl = .ok r := by
   unfold guarded
   split
   · rename_i mro hm
-    rcases hf mro hm with h | h
-    · simp [h]
-    · by_cases h' : catches Gen.ReceivePack.allExceptions mro = true
-      · simp [h']
-      · simp [h', h]
+    by_cases h0 : catches Gen.ReceivePack.lockCatches mro = true
+    · simp [h0]
+    · by_cases h1 : catches Gen.ReceivePack.allExceptions mro = true
+      · simp [h0, h1]
+      · rcases hf mro hm with h | h | h
+        · exact absurd h h0
+        · exact absurd h h1
+        · simp [h0, h1, h]
   · exact ⟨_, rfl⟩
 
 theorem updateRef_no_error {fl : Flags} {env : Env} {caps : List Bytes} {dc : Bool} {s : Srv} {c : Cmd}
     (hd : deleteRefused caps = false)
     (hf : ∀ mro, env.fault c.name = some mro →
+      catches Gen.ReceivePack.lockCatches mro = true ∨
       catches Gen.ReceivePack.allExceptions mro = true ∨ catches Gen.ReceivePack.badRefCatches mro = true) :
     ∃ r, updateRef fl env caps dc s c = .ok r := by
   unfold updateRef
